@@ -843,6 +843,13 @@ regp_recv(RegP *p, RPMaybeFrame *mf)
         mf->error.framesize = cs.error.datacount;
     }
 
+    if (cs.error.id == 0 && cs.buffer.data == NULL) {
+        /* An empty frame: No octet reached the sink, so no buffer was ever
+         * allocated. That is shorter than any header. */
+        mf->error.id = EBADMSG;
+        return regp_resp_meta(p, RP_META_EHEADERENC);
+    }
+
     mf->frame = (RPFrame*)cs.buffer.data;
 
     switch (cs.error.id) {
